@@ -175,6 +175,23 @@ def run(res, tier, have_driver):
         if v.get('t') and impl[0] == 'out':
             res.nt((json.dumps(spec, sort_keys=True), v['s']))
         reqs.append(varpipe.model_req(spec, v))
+    # C-style format codes of the %(name)fmt syntax on tainted values: whatever the code does with a text value (most numeric
+    # codes raise), nothing of the value may come out unescaped
+    from AccessControl.tainted import TaintedString
+    from DocumentTemplate import String
+    for code in ('d', '5d', '05d', 'i', 'x', 'X', 'o', 'e', 'E', 'f', '8.2f', 'g', 'c', 'r', 'a', '12s', '.5s', '-8s', 's'):
+        for txt in ('<img src=x>', '12<3', '<', ' <b>', '<1e3'):
+            for src in ('%%(x)%s' % code, '[%%(x)%s]' % code, '%%(x upper)%s' % code, '%%(x size=40)%s' % code):
+                res.evaluations += 1
+                res.count('epfs_format_codes')
+                try:
+                    out = String(src)(x=TaintedString(txt))
+                except Exception:  # noqa
+                    continue
+                res.nt(('epfs-fmt', code, txt, src))
+                if '<' in out:
+                    res.oracle_fail.append({'case': {'src': src, 'value': 'TaintedString(%r)' % txt, 'syntax': 'epfs'},
+                                            'what': 'a tainted value came out with a raw "<": %r' % (out,)})
     for i in (0, 100, len(cases) // 2, len(cases) - 5):
         res.sample({'spec': cases[i][0], 'value': cases[i][1], 'syntax': cases[i][2],
                     'src': impls[i][1], 'impl': impls[i][0]})
